@@ -20,7 +20,6 @@ func propC11(c *Ctx) {
 	t := c.Tables()
 	c.ruleC11Table(t)
 	c.ruleC11WalkUp()
-	c.ruleC11PlacementPaths()
 	c.ruleC11Close()
 	c.ruleC10CopyReset() // the paste pass re-runs the same context resolution on copies
 	if m := c.E1Base(); m != nil {
@@ -105,7 +104,16 @@ func (c *Ctx) ruleC11Table(t *Tables) {
 }
 
 // ruleC11WalkUp checks the structure of core.processContext.
+// ruleC11WalkUp used to check the structure of processContext on its syntax (one cursor expression, attachments inside
+// the body of the `if` that asks IsAllowedForDirectiveContext, ...). Those clauses recognised one layout of the
+// function and raised alarms when a branch was moved into a helper; every one of them is implied by the path rule
+// C11-PLACEMENT-PATHS, which is decided on the abstract evaluation and does not depend on the layout. The syntactic
+// rule is retired (kept below as ruleC11WalkUpSyntactic for reference, not run).
 func (c *Ctx) ruleC11WalkUp() {
+	c.ruleC11PlacementPaths()
+}
+
+func (c *Ctx) ruleC11WalkUpSyntactic() {
 	r := c.R
 	r.Rule("C11-WALK-UP", "processContext: one context cursor; AppendChild and Parent assignment only under IsAllowedForDirectiveContext(d.Type()); silent move to .Parent only after the explicit-context test returned the incorrect-context error; root append only under IsAllowedForRootContext or the method-with-Path-under-URL test whose explicit-URL branch returns the error", 6)
 	f := c.fn("core", "JApiCore.processContext")
